@@ -6,6 +6,7 @@ coded (`Model/AStar.prunedAsCoded`) guarantees for it.  All statements are for A
 histories / graphs / vertices.
 -/
 import AdaptaVerif.Model.AStarPins
+import AdaptaVerif.Lemmas.AStarPinsNoPath
 namespace AdaptaVerif.Props.C11Search
 open AdaptaVerif.Model AdaptaVerif.Model.Pins AdaptaVerif.Model.AStar AdaptaVerif.Model.AStarPins
 open AdaptaVerif.Model.Geometry (Pt)
@@ -94,5 +95,57 @@ theorem bend_onto_shared_pin_line_allowed (s : State) (ops : List Op) (pos : Nat
     rw [hg]; exact shared_pin_is_end_point s ops pos p q hp hs hq
   exact ⟨fun hx hy => turn_in_end_point_column_not_pruned g.base prev best next q hmem hx hy,
          fun hy hx => turn_in_end_point_row_not_pruned g.base prev best next q hmem hy hx⟩
+
+/-! ### searches that fail before they start (driver: `sisolated` lines, for which no graph is dumped) -/
+
+open AdaptaVerif.Lemmas.AStarPinsNoPath in
+/-- If no enabled edge of the graph leads to the target vertex — the dummy vertex of an end whose pin class has no
+    candidate pin gets no edge from `assignPinVisibilityTo` — the search as coded returns no route, for every graph,
+    every fuel-independent detail of costs and order. -/
+theorem no_enabled_edge_into_target_no_route (g : PGraph) (hne : g.src ≠ g.tar)
+    (h : ∀ v, ∀ e ∈ g.edges v, e.disabled = false → e.to ≠ g.tar) : g.route = none := by
+  have hrun : ∀ b d, g.run ≠ .found b d := by
+    intro b d
+    unfold PGraph.run
+    apply search_never_finds
+    · intro pv v s hs
+      obtain ⟨e, he, hd, hw⟩ := succs_edge g g.base g.costTargets pv v s hs
+      rw [← hw]; exact h v e he hd
+    · intro n hn
+      unfold PGraph.initSt at hn
+      cases hp : g.prevOfStart with
+      | none => rw [hp] at hn; simp [init] at hn; rw [hn]; exact hne
+      | some pn => rw [hp] at hn; simp at hn; rw [hn]; exact hne
+  unfold PGraph.route
+  cases hr : g.run with
+  | found b d => exact absurd hr (hrun b d)
+  | noPath => rfl
+  | outOfFuel => rfl
+
+/-- If the source vertex has no enabled edge the search returns no route. -/
+theorem isolated_source_no_route (g : PGraph) (hne : g.src ≠ g.tar)
+    (h : ∀ e ∈ g.edges g.src, e.disabled = true) : g.route = none := by
+  have hf : (g.edges g.src).filter (fun e => !e.disabled) = [] := by
+    rw [List.filter_eq_nil_iff]; intro e he; simp [h e he]
+  have hsucc : ∀ pv, g.problem.succs pv g.src = [] := by
+    intro pv
+    show g.succs g.base g.costTargets pv g.src = []
+    unfold PGraph.succs
+    rw [hf]; rfl
+  have hone : ∀ (n : Node) (done : List Node) (t k : Nat), n.v = g.src →
+      search g.problem (k + 2) { pending := [n], done := done, time := t } = .noPath := by
+    intro n done t k hv
+    have hnt : ¬ g.src = g.problem.tar := hne
+    unfold search
+    simp only [extractBest, hnt, if_false, hv, hsucc, List.foldl_nil]
+    unfold search
+    simp [extractBest]
+  have hrun : g.run = .noPath := by
+    unfold PGraph.run PGraph.initSt PGraph.fuel
+    cases hp : g.prevOfStart with
+    | none => exact hone _ _ _ _ rfl
+    | some pn => exact hone _ _ _ _ rfl
+  unfold PGraph.route
+  rw [hrun]
 
 end AdaptaVerif.Props.C11Search
